@@ -30,4 +30,10 @@ def inflOfTables {K : Type} [CommRing K] (dkmax : Option ℕ) (hasAdd : Bool)
   | none => 1
   | some id => tbl id earlier later
 
+/-- the η admitted for the pair at distance `dk` in step `n` (0 if outside the memory) -/
+def selEta {K : Type} [CommRing K] (dkmax : Option ℕ) (hasAdd : Bool) (eta : ℤ → K) (n dk : ℕ) : K :=
+  match inflSel dkmax hasAdd n dk with
+  | none => 0
+  | some id => eta id
+
 end OQuPyVerif.Tempo
